@@ -4,7 +4,8 @@
 #include "common.h"
 #include <sys/mman.h>
 
-#define BIG (700u << 10)
+#define BIG (1000u << 10)
+#define MTBIG (3u << 20)
 static u8 *g_pool, *g_dst, *g_ref, *g_hsrc, *g_hdst; static u8* g_srcPage;   /* g_srcPage: start of a readable region preceded by a guard page */
 static ZSTD_Sequence* g_seqs; static void* g_static; static size_t g_staticSize;
 static int g_depth; static ZSTD_threadPool* g_tp;
@@ -129,46 +130,59 @@ static size_t mt_input(int tex, u8* p) {
     case 0: { fill_text(p, 16000, 41); for (int k = 0; k < 5; k++) { memcpy(p + 1500 + (size_t)k * 2900, p + 200, 180); p[1500 + (size_t)k * 2900 + 180] = (u8)('0' + k); } return 16000; }   /* several copies of one segment, each followed by different data */
     case 1: { fill_noise(p, 14000, 9); for (int k = 0; k < 6; k++) memcpy(p + 900 + (size_t)k * 2100, p + 64, 120 + (size_t)k); return 14000; }
     case 2: memcpy(p, g_hsrc + 3000, 20000); return 20000;
-    default: for (int i = 0; i < 12000; i++) p[i] = (u8)((i * 7 + (i >> 6)) & 0x3f); memcpy(p + 6000, p + 100, 3000); return 12000;
+    case 3: for (int i = 0; i < 12000; i++) p[i] = (u8)((i * 7 + (i >> 6)) & 0x3f); memcpy(p + 6000, p + 100, 3000); return 12000;
+    default: { size_t n = MTBIG; fill_text(p, n, 43); for (size_t q = 50000; q + 20000 < n; q += 130000) fill_noise(p + q, 20000, (uint32_t)q); return n; }   /* large enough for rsyncable job cutting (jobs of at least 128 KiB) */
     }
 }
+static int g_mt_rsync;
 static void mt_params(ZSTD_CCtx* c, int workers, int ldm, int ck) {
-    ZSTD_CCtx_setParameter(c, ZSTD_c_compressionLevel, 3); ZSTD_CCtx_setParameter(c, ZSTD_c_windowLog, 13); ZSTD_CCtx_setParameter(c, ZSTD_c_nbWorkers, workers); ZSTD_CCtx_setParameter(c, ZSTD_c_jobSize, 2048); ZSTD_CCtx_setParameter(c, ZSTD_c_checksumFlag, ck);
+    if (g_mt_rsync) ZSTD_CCtx_setParameter(c, ZSTD_c_rsyncable, 1);
+    ZSTD_CCtx_setParameter(c, ZSTD_c_compressionLevel, 3); ZSTD_CCtx_setParameter(c, ZSTD_c_windowLog, 13); ZSTD_CCtx_setParameter(c, ZSTD_c_nbWorkers, workers); ZSTD_CCtx_setParameter(c, ZSTD_c_jobSize, g_mt_rsync ? (256 << 10) : 2048); ZSTD_CCtx_setParameter(c, ZSTD_c_checksumFlag, ck);
     if (ldm) { ZSTD_CCtx_setParameter(c, ZSTD_c_enableLongDistanceMatching, ZSTD_ps_enable); ZSTD_CCtx_setParameter(c, ZSTD_c_ldmHashLog, 7); ZSTD_CCtx_setParameter(c, ZSTD_c_ldmMinMatch, 64); ZSTD_CCtx_setParameter(c, ZSTD_c_ldmBucketSizeLog, 2); ZSTD_CCtx_setParameter(c, ZSTD_c_ldmHashRateLog, ldm == 2 ? 0 : 3); }
 }
+static size_t g_mt_ocap;    /* output room offered per call (0 = ample) */
 static size_t mt_frame(ZSTD_CCtx* c, int calls, const u8* src, size_t n, u8* dst, size_t cap, size_t stopAfter) {
-    if (calls == 0) return ZSTD_compress2(c, dst, cap, src, n);
-    ZSTD_outBuffer out = { dst, cap, 0 }; size_t pos = 0;
-    for (;;) { size_t end = pos + 3333 > n ? n : pos + 3333; ZSTD_inBuffer in = { src, end, pos }; ZSTD_EndDirective dir = end == n ? ZSTD_e_end : (calls == 2 ? ZSTD_e_flush : ZSTD_e_continue); size_t r;
-        do { r = ZSTD_compressStream2(c, &out, &in, dir); if (ZSTD_isError(r)) return r; } while ((dir != ZSTD_e_continue && r != 0) || (dir == ZSTD_e_continue && in.pos < in.size));
+    if (calls == 0 && !g_mt_ocap) return ZSTD_compress2(c, dst, cap, src, n);
+    size_t produced = 0, pos = 0, chunk = calls == 0 ? n : 3333; long guard = 0;
+    for (;;) { size_t end = pos + chunk > n ? n : pos + chunk; ZSTD_inBuffer in = { src, end, pos }; ZSTD_EndDirective dir = end == n ? ZSTD_e_end : (calls == 2 ? ZSTD_e_flush : ZSTD_e_continue); size_t r;
+        do { size_t room = g_mt_ocap ? g_mt_ocap : cap - produced; if (room > cap - produced) room = cap - produced; ZSTD_outBuffer out = { dst + produced, room, 0 };
+             r = ZSTD_compressStream2(c, &out, &in, dir); produced += out.pos; if (ZSTD_isError(r)) return r; if (++guard > 4000000) return (size_t)-ZSTD_error_GENERIC;
+        } while ((dir != ZSTD_e_continue && r != 0) || (dir == ZSTD_e_continue && in.pos < in.size));
         pos = in.pos; if (end == n) break; if (stopAfter && pos >= stopAfter) return 0; }
-    return out.pos;
+    return produced;
 }
 static void body_mt(void) {
-    int tex = vx_choose(4), workers = 1 + vx_choose(2), ldm = vx_choose(3), calls = vx_choose(3), ck = vx_choose(2), hist = vx_choose(7);
+    int tex = vx_choose(4), workers = 1 + vx_choose(2), ldm = vx_choose(3), calls = vx_choose(3), ck = vx_choose(2), hist = vx_choose(7), rsync = vx_choose(2), oc = vx_choose(3);
+    static const size_t OC[] = {0, 7, 1}, OCBIG[] = {0, 1000, 64}; g_mt_rsync = rsync;
+    if (rsync) { if (tex) { vx_obs_u64(72); return; } tex = 4; }      /* rsyncable only cuts jobs on inputs of several 128 KiB: one large texture */
     static const char* HN[] = {"none", "same-frame", "other-input", "ldm-toggled", "other-worker-count", "abandoned-frame+reset", "same-frame-twice"};
-    vx_label("mt tex%d workers%d ldm%d calls%d ck%d after [%s]", tex, workers, ldm, calls, ck, HN[hist]);
-    u8* src = g_srcPage; size_t n = mt_input(tex, src), cap = ZSTD_compressBound(BIG);
-    vs_config_t cfg; memset(&cfg, 0, sizeof cfg); cfg.pick = cb_pick0; cfg.fail = cb_fail; cfg.horizon = 4000000;
+    vx_label("mt tex%d workers%d ldm%d calls%d ck%d rsync%d outroom%zu after [%s]", tex, workers, ldm, calls, ck, rsync, rsync ? OCBIG[oc] : OC[oc], HN[hist]);
+    if (oc && hist > 1) { vx_obs_u64(71); return; }      /* output-room variants: fresh context and same-frame history only */
+    u8 *src = g_srcPage, *ref = g_ref, *dst = g_dst, *hdst = g_hdst; size_t cap = ZSTD_compressBound(BIG);
+    if (rsync) { static u8* big[4]; cap = ZSTD_compressBound(MTBIG); if (!big[0]) { big[0] = (u8*)malloc(MTBIG); for (int k = 1; k < 4; k++) big[k] = (u8*)malloc(cap); } src = big[0]; ref = big[1]; dst = big[2]; hdst = big[3]; }
+    size_t n = mt_input(tex, src);
+    vs_config_t cfg; memset(&cfg, 0, sizeof cfg); cfg.pick = cb_pick0; cfg.fail = cb_fail; cfg.horizon = 20000000;
     vs_begin(&cfg);
-    ZSTD_CCtx* f = ZSTD_createCCtx(); mt_params(f, workers, ldm, ck); size_t rn = mt_frame(f, calls, src, n, g_ref, cap, 0); ZSTD_freeCCtx(f);
+    g_mt_ocap = 0;    /* reference: fresh context, ample output room */
+    ZSTD_CCtx* f = ZSTD_createCCtx(); mt_params(f, workers, ldm, ck); size_t rn = mt_frame(f, calls, src, n, ref, cap, 0); ZSTD_freeCCtx(f);
     ZSTD_CCtx* c = ZSTD_createCCtx(); size_t hr = 0;
     switch (hist) {
-    case 1: case 6: for (int k = 0; k < (hist == 6 ? 2 : 1); k++) { mt_params(c, workers, ldm, ck); hr = mt_frame(c, calls, src, n, g_hdst, cap, 0); } break;
-    case 2: { size_t hn = mt_input((tex + 1) & 3, g_pool); mt_params(c, workers, ldm, ck); hr = mt_frame(c, calls, g_pool, hn, g_hdst, cap, 0); break; }
-    case 3: mt_params(c, workers, ldm ? 0 : 1, ck); hr = mt_frame(c, calls, src, n, g_hdst, cap, 0); break;
-    case 4: mt_params(c, 3 - workers, ldm, ck); hr = mt_frame(c, calls, src, n, g_hdst, cap, 0); break;
-    case 5: mt_params(c, workers, ldm, ck); hr = mt_frame(c, 1, src, n, g_hdst, cap, 6000); break;
+    case 1: case 6: for (int k = 0; k < (hist == 6 ? 2 : 1); k++) { mt_params(c, workers, ldm, ck); hr = mt_frame(c, calls, src, n, hdst, cap, 0); } break;
+    case 2: { size_t hn = mt_input((tex + 1) & 3, g_pool); mt_params(c, workers, ldm, ck); hr = mt_frame(c, calls, g_pool, hn, hdst, cap, 0); break; }
+    case 3: mt_params(c, workers, ldm ? 0 : 1, ck); hr = mt_frame(c, calls, src, n, hdst, cap, 0); break;
+    case 4: mt_params(c, 3 - workers, ldm, ck); hr = mt_frame(c, calls, src, n, hdst, cap, 0); break;
+    case 5: mt_params(c, workers, ldm, ck); hr = mt_frame(c, 1, src, n, hdst, cap, 6000); break;
     default: break;
     }
     ZSTD_CCtx_reset(c, ZSTD_reset_session_and_parameters);
-    mt_params(c, workers, ldm, ck); size_t cn = mt_frame(c, calls, src, n, g_dst, cap, 0); ZSTD_freeCCtx(c);
+    g_mt_ocap = rsync ? OCBIG[oc] : OC[oc];
+    mt_params(c, workers, ldm, ck); size_t cn = mt_frame(c, calls, src, n, dst, cap, 0); ZSTD_freeCCtx(c); g_mt_ocap = 0;
     vs_end();
     if (ZSTD_isError(rn) || ZSTD_isError(hr)) { vx_fail("multithreaded frame fails: %s", ZSTD_getErrorName(ZSTD_isError(rn) ? rn : hr)); return; }
     if (ZSTD_isError(cn)) vx_fail("multithreaded subject fails after history [%s] although it succeeds on a fresh context: %s", HN[hist], ZSTD_getErrorName(cn));
-    else if (cn != rn || memcmp(g_dst, g_ref, rn)) vx_fail("multithreaded output after history [%s] differs from the fresh-context output", HN[hist]);
-    { size_t o = ZSTD_decompress(g_pool, 1u << 20, g_ref, rn); if (ZSTD_isError(o) || o != n || memcmp(g_pool, src, n)) vx_fail("multithreaded frame does not round trip"); }
-    vx_obs_u64(vx_hash(g_ref, rn)); if (hist) vx_nontrivial(); vx_stat_add("histories_run", 1);
+    else if (cn != rn || memcmp(dst, ref, rn)) vx_fail("multithreaded output after history [%s]%s differs from the output of a fresh context with ample output room", HN[hist], oc ? " with little output room per call" : "");
+    { size_t o = ZSTD_decompress(hdst, cap, ref, rn); if (ZSTD_isError(o) || o != n || memcmp(hdst, src, n)) vx_fail("multithreaded frame does not round trip"); }
+    vx_obs_u64(vx_hash(ref, rn)); if (hist) vx_nontrivial(); vx_stat_add("histories_run", 1);
     if (vx_want_sample()) vx_sample("mt tex%d workers%d ldm%d calls%d after [%s]: %zu bytes, identical to fresh", tex, workers, ldm, calls, HN[hist], rn);
 }
 #endif
